@@ -587,6 +587,8 @@ pub fn check_zooms(case: &PipeCase, out: &WriteOutcome) -> Verdict {
         enum R {
             W(BigWigRead<SimRead>),
             B(BigBedRead<SimRead>),
+            WC(BigWigRead<bigtools::CachedBBIFileRead<SimRead>>),
+            BC(BigBedRead<bigtools::CachedBBIFileRead<SimRead>>),
         }
         let rd = SimRead::new(img.clone(), &case.read);
         let mut r = match case.kind {
@@ -602,6 +604,7 @@ pub fn check_zooms(case: &PipeCase, out: &WriteOutcome) -> Verdict {
         let listed: Vec<u32> = match &r {
             R::W(b) => b.info().zoom_headers.iter().map(|z| z.reduction_level).collect(),
             R::B(b) => b.info().zoom_headers.iter().map(|z| z.reduction_level).collect(),
+            _ => vec![],
         };
         if listed.windows(2).any(|w| w[1] <= w[0]) {
             return viol("zoom-order", format!("zoom_headers not strictly increasing: {:?}", listed));
@@ -610,7 +613,24 @@ pub fn check_zooms(case: &PipeCase, out: &WriteOutcome) -> Verdict {
         if listed != dec_levels {
             return viol("zoom-order", format!("reader lists {:?}, file holds {:?}", listed, dec_levels));
         }
-        for z in &dec.zooms {
+        // the same queries twice: on the plain reader, then (in reverse order, one instance living through the
+        // whole history) on the caching reader
+        for flavour in 0..2 {
+        if flavour == 1 {
+            let rd = SimRead::new(img.clone(), &case.read);
+            r = match case.kind {
+                Kind::Wig => match BigWigRead::open(rd) {
+                    Ok(b) => R::WC(b.cached()),
+                    Err(e) => return viol("open-failed", format!("open: {}", e)),
+                },
+                Kind::Bed => match BigBedRead::open(rd) {
+                    Ok(b) => R::BC(b.cached()),
+                    Err(e) => return viol("open-failed", format!("open: {}", e)),
+                },
+            };
+        }
+        let levels: Vec<&decode::DZoom> = if flavour == 0 { dec.zooms.iter().collect() } else { dec.zooms.iter().rev().collect() };
+        for z in levels {
             for c in &case.chroms {
                 let dc = match dec.chrom_by_name(&c.name) {
                     Some(d) => d,
@@ -623,8 +643,20 @@ pub fn check_zooms(case: &PipeCase, out: &WriteOutcome) -> Verdict {
                     .filter(|r| r.chrom == dc.id)
                     .cloned()
                     .collect();
-                for (s, e) in zoom_queries(c, &recs, z.reduction) {
+                let mut queries = zoom_queries(c, &recs, z.reduction);
+                if flavour == 1 {
+                    queries.reverse();
+                }
+                for (s, e) in queries {
                     let got: Result<Vec<bigtools::ZoomRecord>, String> = match &mut r {
+                        R::WC(b) => match b.get_zoom_interval(&c.name, s, e, z.reduction) {
+                            Ok(i) => i.collect::<Result<Vec<_>, _>>().map_err(|e| format!("{}", e)),
+                            Err(e) => Err(format!("{}", e)),
+                        },
+                        R::BC(b) => match b.get_zoom_interval(&c.name, s, e, z.reduction) {
+                            Ok(i) => i.collect::<Result<Vec<_>, _>>().map_err(|e| format!("{}", e)),
+                            Err(e) => Err(format!("{}", e)),
+                        },
                         R::W(b) => match b.get_zoom_interval(&c.name, s, e, z.reduction) {
                             Ok(i) => i.collect::<Result<Vec<_>, _>>().map_err(|e| format!("{}", e)),
                             Err(e) => Err(format!("{}", e)),
@@ -706,6 +738,7 @@ pub fn check_zooms(case: &PipeCase, out: &WriteOutcome) -> Verdict {
                     }
                 }
             }
+        }
         }
         Verdict::Pass
     })
